@@ -18,6 +18,11 @@ CONTENTS = {  # (local, remote)
 }
 MERGED = b"merged<local+remote>"
 STEPS = ["I0", "I1", "S"]
+# longer systematic schedules for the path-style family: the sync step runs several times before the losing side's own
+# events (the rename of the loser to '.conflicted') are taken in, and variants
+LONG_SCHEDULES = [("I0", "I1", "S", "S", "S", "S", "S"), ("I1", "I0", "S", "S", "S", "S", "S"), ("I0", "S", "S", "S", "S", "S", "I1"),
+                  ("I1", "S", "S", "S", "S", "S", "I0"), ("I0", "S", "I1", "S"), ("I1", "S", "I0", "S"), ("S", "I0", "I1", "S", "S", "S"),
+                  ("I0", "I1", "S", "S", "I0", "S", "S", "I1"), ("I0", "I1", "S", "S", "I1", "S", "S", "I0")]
 
 
 def make_resolver(beh):
@@ -292,6 +297,35 @@ def run(ctx):
                 ctx.violation("conflict outcome differs from the specified one with providers of different hash types (C05): %s; observed "
                               "%d resolver call(s), views %s; expected (calls, local, remote) = %s" % (casej, r["ncalls"], r["views"], ans[1:]),
                               dict(kind="conflict-run", case=casej, observed=dict(calls=r["ncalls"], views=r["views"]), expected=ans[1:]))
+        # ---- deterministic family: path-style ids (an object's id IS its path, so renaming the loser to '.conflicted' changes
+        # its id) on one side or both, with the longer systematic schedules
+        pflav = [E.Flavour(o, cs, False, "path").key() for o in [(False, True), (True, False), (True, True)] for cs in [(True, True), (False, False)]]
+        pscheds = list(LONG_SCHEDULES) + ([] if ctx.quick else [s2 for n in range(0, 4) for s2 in itertools.product(STEPS, repeat=n)])
+        pcases = [(fk, shape, ccls, beh, sch, first) for fk in pflav for shape in ("create", "edit")
+                  for ccls in (("distinct", "equal") if ctx.quick else tuple(CONTENTS)) for beh in BEHAVIOURS for sch in pscheds for first in (0, 1)]
+        pchunks = [pcases[j:j + 100] for j in range(0, len(pcases), 100)]
+        with mp.get_context("fork").Pool(16) as pool:
+            pres = [r for ch in pool.map(_chunk, pchunks) for r in ch]
+        model = fw.ModelProc("resolver")
+        pans = model.batch([r["req"] for r in pres if "req" in r])
+        model.close()
+        it4 = iter(pans)
+        stats["path_style"] = dict(runs=len(pres), accepted=0, flavours=len(pflav), schedules=len(pscheds))
+        for r in pres:
+            fk, shape, ccls, beh, sch, first = r["case"]
+            dist.add(("path_style",) + tuple(map(str, r["case"])), nontrivial=ccls != "equal")
+            casej = dict(flavour=fk, shape=shape, contents=ccls, behaviour=beh, schedule=list(sch), first_side=first)
+            if "req" not in r:
+                ctx.violation("conflict run with path-style ids did not settle: %s (%s)" % (r.get("error"), casej),
+                              dict(kind="conflict-run", case=casej))
+                continue
+            ans = next(it4)
+            if ans == [1]:
+                stats["path_style"]["accepted"] += 1
+            else:
+                ctx.violation("conflict outcome differs from the specified one with path-style ids (C05): %s; observed %d resolver call(s), "
+                              "views %s; expected (calls, local, remote) = %s" % (casej, r["ncalls"], r["views"], ans[1:]),
+                              dict(kind="conflict-run", case=casej, observed=dict(calls=r["ncalls"], views=r["views"]), expected=ans[1:]))
         # ---- deterministic probe: merged data with keep = True.  The property states no outcome for it, but whatever the
         # resolver answers the engine must reach a quiet state in a bounded number of steps (C01); it does not (finding E-7).
         stats["merged_keep_probe"] = {}
@@ -312,7 +346,9 @@ def run(ctx):
     cov["rule"] = ("product of 4 flavours (case mode x root by path/oid, both sides id-stable, unfiltered) x {create/create, edit/edit} x 4 content "
                    "pairs (equal, empty vs non-empty, distinct, 3 KiB) x 10 resolver behaviours x every sequence of <= %d engine steps over "
                    "{intake local, intake remote, sync} after the conflict exists, then a fair drain; thorough enumerates it completely, quick a "
-                   "fixed quarter rotated by the seed; non-trivial = contents differ (the resolver must be consulted)" % (3 if ctx.quick else 4))
+                   "fixed quarter rotated by the seed; non-trivial = contents differ (the resolver must be consulted); plus the deterministic families "
+                   "interrupted_sync, multihash and path_style (6 flavours with path-style ids on one side or both x both shapes x contents x 10 "
+                   "behaviours x 9 long schedules [thorough: + every schedule of <= 3 steps, all 4 content pairs] x first side)" % (3 if ctx.quick else 4))
     cov["streams"] = stats
     cov["samples"] = samples
     tb = ["Coq 8.16.1 kernel (coqc); no native_compute",
@@ -322,5 +358,6 @@ def run(ctx):
           "modelled, not verified: the engine's conflict path itself (SyncManager.handle_hash_conflict/resolve_conflict) — the theorems "
           "are about the specified outcome; every explored schedule of the real engine must land on it",
           "resolver answer 'merged data, keep=True': no outcome is specified by the property; only probed for settling (open finding E-7: the engine never goes quiet); "
-          "a resolver raising CloudTemporaryError (retried by design, so called more than once), path-style ids"]
+          "a resolver raising CloudTemporaryError (retried by design, so called more than once); path-style ids are explored by the "
+          "path_style family only (systematic schedules, not the full product)"]
     return ctx.finish(tb)
